@@ -15,12 +15,12 @@ import ast
 import re
 from typing import Any, Dict, List, Optional, Sequence, Tuple
 
-from ..consteval import CallVal, ConstEval, EnumVal, Sym, enum_members, is_const
+from ..consteval import CallVal, ConstEval, EnumVal, StructVal, Sym, enum_members, is_const
 from ..core import (AnalysisError, ClassInfo, FuncInfo, always_exits, ancestors, ap, atoms, call_attr, calls, conditions,
                     enclosing_stmt, facts, find_calls, is_none_test, kw, norm, parent, src, stores, walk)
 from ..cfg import CFG
 from ..tzlint import site_key, tz_sites
-from .common import assigned_value, class_methods_reachable, fmt_count, linform
+from .common import assigned_value, class_methods_reachable, fmt_count, linform, module_funcs_reachable
 
 TEMPL = "hippolyzer/lib/base/templates.py"
 SCHEMA = "hippolyzer/lib/base/legacy_schema.py"
@@ -518,6 +518,11 @@ class _Chains:
             if ca is None:
                 return None
             kws = tuple(sorted((k.arg or "**", repr(self.ev.ev(k.value))) for k in e.keywords))
+            if isinstance(e.func, ast.Attribute) and e.func.attr in ("pack", "unpack") and not e.keywords:
+                # a precompiled struct.Struct("fmt") object: the same idiom as struct.pack("fmt", ..)
+                sv = self.ev.ev(e.func.value)
+                if isinstance(sv, StructVal):
+                    return inner + [("call", f"struct.{e.func.attr}", (sv.fmt,) + ca)]
             if len(e.args) == 1 and not e.keywords:
                 body = self._helper_chain(e, depth)
                 if body is not None:
@@ -631,11 +636,24 @@ def _branches(repo, fi: FuncInfo) -> Tuple[List[Tuple[list, list]], Optional[str
     rets = [n for n in walk(fi.node) if isinstance(n, ast.Return)]
     if not rets:
         raise AnalysisError(f"C20.R2: {fi.qual} never returns a value")
-    for r in rets:
+    def alternatives(fs):
+        """a guard `A or B` that holds splits the return into one alternative per disjunct"""
+        alts = [[]]
+        for e, pol in fs:
+            if isinstance(e, ast.BoolOp) and isinstance(e.op, ast.Or) and pol:
+                alts = [a + atoms(d, True) for a in alts for d in e.values]
+            elif isinstance(e, ast.BoolOp) and isinstance(e.op, ast.And) and not pol:
+                alts = [a + atoms(d, False) for a in alts for d in e.values]
+            else:
+                alts = [a + [(e, pol)] for a in alts]
+        if len(alts) > 8:
+            raise AnalysisError(f"C20.R2: {fi.qual}: guard too complex (extend C20.R2)")
+        return alts
+    for r, fs_alt in ((r, fa) for r in rets for fa in alternatives(facts(r, fi.node))):
         if ch.rebind is not None and not _precedes(ch.rebind, r):
             raise AnalysisError(f"C20.R2: {fi.qual}: `{norm(r)}` does not follow the re-binding of `{val}` (extend C20.R2)")
         ffacts, typed, vguards = [], False, []
-        for e, pol in facts(r, fi.node):
+        for e, pol in fs_alt:
             if isinstance(e, ast.Compare) and len(e.ops) == 1 and isinstance(e.ops[0], (ast.Eq, ast.NotEq)):
                 sides = [e.left, e.comparators[0]]
                 names = [ap(s) for s in sides]
@@ -970,12 +988,14 @@ def r2(ctx):
         ctx.w(smod, pat), "a str pattern with \\s and without re.ASCII treats every Unicode space as a separator: a value "
                           "starting with U+3000 / U+00A0 loses its first character on parse")
     tok = repo.fn("_yield_schema_tokens", INV)
-    strips = [c for c in calls(tok.node) if call_attr(c) in ("strip", "lstrip", "rstrip") and isinstance(c.func, ast.Attribute)]
-    for i, c in enumerate(strips):
-        chars = ConstEval(repo, tok.module).ev(c.args[0]) if c.args else None
+    strips = [(f, c) for f in module_funcs_reachable(repo, tok) for c in calls(f.node)
+              if call_attr(c) in ("strip", "lstrip", "rstrip") and isinstance(c.func, ast.Attribute)]
+    ctx.floor("C20.R2", "line strips in the schema tokeniser", len(strips), 1)
+    for i, (f, c) in enumerate(strips):
+        chars = ConstEval(repo, f.module).ev(c.args[0]) if c.args else None
         ok = isinstance(chars, str) and all(ord(ch) < 128 for ch in chars)
         _ob(ctx, "C20.R2", f"_yield_schema_tokens: line strip{'' if i == 0 else f' #{i + 1}'} removes ASCII blanks only", ok,
-            ctx.w(tok, c), f"`{norm(c)}` strips every Unicode space from the line")
+            ctx.w(f, c), f"`{norm(c)}` strips every Unicode space from the line")
 
     # tz lint (shared hipposa.tzlint) on the schema modules
     sites = tz_sites(repo, (SCHEMA, INV))
@@ -2841,11 +2861,108 @@ def r15(ctx):
     lines = [i for i, o in enumerate(seq) if o[0] == "line"]
     ctx.require(len(lines) >= 2, "C20.R15: Wearable.from_reader no longer reads a version line and a name line (re-read)")
     between = [o for o in seq[lines[0] + 1:lines[1]] if o[0] == "scan"]
+    # the name has a line of its own and the writer emits it verbatim: the reader may take the line terminator off,
+    # nothing else (a bare rstrip() also removes every trailing blank of the name)
+    _, nf, ncall = seq[lines[1]]
+    strips = []
+    up = parent(ncall)
+    if isinstance(up, ast.Attribute) and isinstance(parent(up), ast.Call) and parent(up).func is up:
+        strips.append(parent(up))
+    else:
+        st = enclosing_stmt(ncall)
+        held = {t.id for t in getattr(st, "targets", []) if isinstance(t, ast.Name)} if isinstance(st, ast.Assign) else set()
+        for c in calls(nf.node):
+            if isinstance(c.func, ast.Attribute) and isinstance(c.func.value, ast.Name) and c.func.value.id in held \
+                    and c.func.attr in ("strip", "rstrip", "lstrip", "removesuffix", "splitlines"):
+                strips.append(c)
+    nev = ConstEval(repo, nf.module)
+
+    def terminator_only(c) -> bool:
+        if c.func.attr not in ("rstrip", "removesuffix"):
+            return False
+        chars = nev.ev(c.args[0]) if len(c.args) == 1 and not c.keywords else None
+        return isinstance(chars, str) and chars != "" and set(chars) <= {"\r", "\n"}
+    ok_strip = bool(strips) and all(terminator_only(c) for c in strips)
+    _ob(ctx, "C20.R15", "Wearable.from_reader: only the line terminator is taken off the name line", ok_strip,
+        ctx.w(nf, strips[0] if strips else ncall),
+        (f"`{norm(strips[0])}` removes more than the line terminator: a name ending in a blank (ASCII or U+3000 / U+00A0) "
+         f"comes back without it, and a name that is only blanks becomes the empty name") if strips else
+        "the name line is used with its line terminator")
     _ob(ctx, "C20.R15", "Wearable.from_reader: the name is the line right after the version line", not between,
         ctx.w(between[0][1], between[0][2]) if between else rd.where,
         f"`{norm(between[0][2]) if between else ''}` (a blank-line scan) runs between reading the version line and reading "
         f"the name line: an empty name (a legal value, written as an empty line) is skipped and the permissions header "
         f"is taken for the name")
+
+
+# =========================================================================== R16
+
+def r16(ctx):
+    repo = ctx.repo
+    ctx.rule("C20.R16", "message-block constructors of the inventory nodes: a field that one direction converts through a "
+                        "schema field serializer is converted back by the sibling (same serializer, same flavour)")
+    fbase = repo.cls("SchemaFieldSerializer", SCHEMA)
+    ser_names = {c.name for c in _subclasses(repo, fbase)}
+    sbase = repo.cls("SchemaBase", SCHEMA)
+    pairs = 0
+    convs = 0
+    for c in sorted(_subclasses(repo, sbase), key=lambda k: k.name):
+        for wname, rname in (("to_inventory_data", "from_inventory_data"), ("to_folder_data", "from_folder_data")):
+            wm, rm = c.methods.get(wname), c.methods.get(rname)
+            if wm is None or rm is None:
+                continue
+            pairs += 1
+            fields = _dc_fields(repo, c)
+
+            def conv_of(e, want):
+                """(serializer class, flavour constant or None, inner argument) of a X.<want>(arg[, flavour]) call."""
+                if isinstance(e, ast.Call) and isinstance(e.func, ast.Attribute) and e.func.attr in want and e.args:
+                    x = (ap(e.func.value) or "").split(".")[-1]
+                    if x in ser_names:
+                        fl = e.args[1].value if len(e.args) > 1 and isinstance(e.args[1], ast.Constant) else None
+                        return x, fl, e.args[0]
+                return None
+            # writer: Block(..., Key=<expr over self.field>)
+            w_rows: Dict[str, tuple] = {}
+            for b in calls(wm.node):
+                if (ap(b.func) or "").split(".")[-1] != "Block":
+                    continue
+                for k in b.keywords:
+                    if k.arg is None:
+                        continue
+                    wval = _expand(wm.node, k.value)
+                    cv = conv_of(wval, ("to_llsd", "serialize"))
+                    inner = cv[2] if cv else wval
+                    fname = next((ap(n).split(".", 1)[1] for n in ast.walk(inner) if isinstance(n, ast.Attribute)
+                                  and isinstance(n.value, ast.Name) and n.value.id == "self" and n.attr in fields), None)
+                    if fname:
+                        w_rows[fname] = (k.arg, cv, k.value)
+            # reader: cls(field=<expr over block["Key"]>)
+            bparam = _first_params(rm)[1] if len(_first_params(rm)) > 1 else None
+            r_rows: Dict[str, tuple] = {}
+            for b in calls(rm.node):
+                if not (isinstance(b.func, ast.Name) and b.func.id in ("cls", c.name)):
+                    continue
+                for k in b.keywords:
+                    if k.arg in fields:
+                        rval = _expand(rm.node, k.value)
+                        r_rows[k.arg] = (conv_of(rval, ("from_llsd", "deserialize")), rval)
+            for fname in sorted(set(w_rows) & set(r_rows)):
+                key, wcv, wexpr = w_rows[fname]
+                rcv, rexpr = r_rows[fname]
+                if wcv is None and rcv is None:
+                    continue
+                convs += 1
+                ok = wcv is not None and rcv is not None and wcv[0] == rcv[0] and wcv[1] == rcv[1] and \
+                    any(isinstance(n, ast.Subscript) and ap(n.value) == bparam and isinstance(n.slice, ast.Constant)
+                        and n.slice.value == key for n in ast.walk(rcv[2]))
+                _ob(ctx, "C20.R16", f"{c.name}.{wname} / {rname}: {key} is converted in both directions", ok,
+                    ctx.w(rm, rexpr),
+                    f"writer puts `{norm(wexpr)}` into the block, reader builds the field from `{norm(rexpr)}`: the value "
+                    f"{rname}() stores is not of the field's type, so the node it returns cannot be written by any codec "
+                    f"(and {wname}() of it raises)")
+    ctx.floor("C20.R16", "message-block constructor pairs", pairs, 2)
+    ctx.floor("C20.R16", "converted block fields", convs, 1)
 
 
 def run(ctx):
@@ -2864,3 +2981,4 @@ def run(ctx):
     r13(ctx)
     r14(ctx)
     r15(ctx)
+    r16(ctx)
